@@ -167,13 +167,20 @@ def dropStart (p : List Char) : List Char := p.drop LIKE_TRIM_START
 def dropBoth (p : List Char) : List Char :=
   (p.take (p.length - LIKE_CONTAINS_TRIM_END)).drop LIKE_CONTAINS_TRIM_START
 
+/-- the slices tested by the *guards* of `Predicate::like` (same expressions as the payloads,
+read separately from the source so that editing only one of the two is noticed) -/
+def dropEndG (p : List Char) : List Char := p.take (p.length - LIKE_GUARD_STARTSWITH)
+def dropStartG (p : List Char) : List Char := p.drop LIKE_GUARD_ENDSWITH
+def dropBothG (p : List Char) : List Char :=
+  (p.take (p.length - LIKE_GUARD_CONTAINS_END)).drop LIKE_GUARD_CONTAINS_START
+
 /-- `Predicate::like(pattern)` -/
 def classifyLike (p : List Char) : Pred :=
   let clp (q : List Char) := containsLikePattern (encode q)
   if !clp p then .eq p
-  else if p.getLast? == some '%' && !clp (dropEnd p) then .startsWith (dropEnd p)
-  else if p.head? == some '%' && !clp (dropStart p) then .endsWith (dropStart p)
-  else if p.head? == some '%' && p.getLast? == some '%' && !clp (dropBoth p) then
+  else if p.getLast? == some '%' && !clp (dropEndG p) then .startsWith (dropEnd p)
+  else if p.head? == some '%' && !clp (dropStartG p) then .endsWith (dropStart p)
+  else if p.head? == some '%' && p.getLast? == some '%' && !clp (dropBothG p) then
     .contains (dropBoth p)
   else .regex (regexLike p)
 
@@ -189,9 +196,11 @@ def classifyILike (p : List Char) (isAscii : Bool) : Pred :=
   let clp (q : List Char) := containsLikePattern (encode q)
   if isAscii && bytesAscii (encode p) then
     if !clp p then .ieqAscii p
-    else if p.getLast? == some '%' && !endsWithEscapedPercent p && !clp (dropEnd p) then
-      .istartsWithAscii (dropEnd p)
-    else if p.head? == some '%' && !clp (dropStart p) then .iendsWithAscii (dropStart p)
+    else if p.getLast? == some '%' && !endsWithEscapedPercent p
+        && !clp (p.take (p.length - ILIKE_GUARD_STARTSWITH)) then
+      .istartsWithAscii (p.take (p.length - ILIKE_TRIM_END))
+    else if p.head? == some '%' && !clp (p.drop ILIKE_GUARD_ENDSWITH) then
+      .iendsWithAscii (p.drop ILIKE_TRIM_START)
     else .regex (regexLike p)
   else .regex (regexLike p)
 
@@ -237,15 +246,20 @@ inductive SubRes where
   | err
   deriving Repr, DecidableEq
 
+/-- `pair[i]` of `offsets.windows(2)` relative to the element: `pair[0] = 0`, `pair[1] = n`
+(the indices are read from the source on every run) -/
+def pairAt (n i : Nat) : Int := if i = 0 then 0 else (n : Int)
+
 /-- `new_start` of `byte_substring` / `view_substring_range` relative to the element:
 `start > 0` → `min(start, n)`; `0` → `0`; `start < 0` → `max(n + start, 0)` -/
 def subStart (n : Nat) (start : Int) : Nat :=
-  (if start > 0 then min start (n : Int) else if start = 0 then 0 else max ((n : Int) + start) 0).toNat
+  (if start > 0 then min (pairAt n SUBSTR_POS_BASE + start) (pairAt n SUBSTR_POS_CLAMP)
+   else if start = 0 then 0 else max (pairAt n SUBSTR_NEG_BASE + start) 0).toNat
 
-/-- `new_end`: `min(length + new_start, n)`, or `n` when no length is given -/
+/-- `new_end`: `min(length + new_start, pair[1])`, or `pair[1]` when no length is given -/
 def subEnd (n st : Nat) (len : Option Nat) : Nat :=
   match len with
-  | some l => min (l + st) n
+  | some l => min (l + st) (pairAt n SUBSTR_END_CLAMP).toNat
   | none => n
 
 /-- one element of `byte_substring` / `string_view_substring` (offsets relative to the
@@ -272,14 +286,19 @@ def asciiBounds (n : Nat) (start : Int) (len : Option Nat) : Nat × Nat :=
     | some l => min (so + l) n
   (so, eo)
 
+/-- the character index `utf8_bounds` starts at, for a string of `n` characters:
+`char_indices().nth(start)` (or the end), resp. `char_indices().nth_back(back - 1)` (or 0) -/
+def utf8StartIdx (n : Nat) (start : Int) : Nat :=
+  if start ≥ 0 then (if start.toNat < n then start.toNat else n)
+  else (let j := (-start).toNat - SUBSTRC_NTH_BACK_ADJ
+        if j < n then n - 1 - j else 0)
+
 /-- `fn utf8_bounds(val, start, length)`: `char_indices().nth(k)` is the byte length of the
 first `k` characters (or "none" when there are not that many); `nth_back(back-1)` is the
 byte offset of the `back`-th character from the end. -/
 def utf8Bounds (s : List Char) (start : Int) (len : Option Nat) : Nat × Nat :=
   let n := byteLen s
-  let startIdx : Nat :=
-    if start ≥ 0 then (if start.toNat < s.length then start.toNat else s.length)
-    else (if (-start).toNat ≤ s.length then s.length - (-start).toNat else 0)
+  let startIdx : Nat := utf8StartIdx s.length start
   let so := byteLen (s.take startIdx)
   let eo := match len with
     | none => n
